@@ -5,7 +5,7 @@ import datetime as _dt
 from .soracle import Struct
 from .sworld import DT
 
-EST = [None, 0, 1, 2, 3, 5, 8, 13, 0.5, 2.25, 0.1, 1 / 3, 4, 6]
+EST = [None, 0, 1, 2, 3, 5, 8, 13, 0.5, 2.25, 0.1, 1 / 3, 4, 6, 21, 40, 100, 0.7]
 RES_POOL = [None, 'r1', 'r2', 'r3', 'rx']
 
 
@@ -268,7 +268,8 @@ def make_scenario(streams, quarantine=()):
     sc['schedulers']['B'] = other
     # calc history
     rc = streams('clock')
-    clock = gen_clock(rc, P, moving=True)
+    metamorphic = direction == 'fwd' and not params['balance'] and n >= 2 and klass == 'ok'
+    clock = gen_clock(rc, P, moving=not (metamorphic and rc.random() < 0.7))
     if klass == 'future_end':
         cand = [t for t in leaves if not t['kw'].get('milestone')]
         if cand:
@@ -282,7 +283,9 @@ def make_scenario(streams, quarantine=()):
     ro = streams('ops')
     for _ in range(ro.choice([0, 1, 1, 2, 3])):
         k = ro.choice(['same', 'fresh', 'fail', 'early', 'early', 'other', 'minus'])
-        if k == 'same':
+        if k in ('minus', 'same') and direction == 'fwd' and not params['balance'] and n >= 2 and clock['kind'] == 'frozen':
+            ops.append({'op': 'calc_minus', 'sched': 'A', 'clock': clock, 'remove': ro.choice(names), 'ref': 0})
+        elif k == 'same':
             ops.append({'op': 'calc', 'sched': 'A', 'fresh': False, 'clock': clock, 'equal_to': 0})
         elif k == 'fresh':
             ops.append({'op': 'calc', 'sched': 'A', 'fresh': True, 'clock': clock, 'equal_to': 0})
@@ -297,8 +300,16 @@ def make_scenario(streams, quarantine=()):
         elif k == 'other':
             ops.append({'op': 'calc', 'sched': 'B', 'fresh': True, 'clock': gen_clock(rc, P, moving=True)})
             ops.append({'op': 'calc', 'sched': 'A', 'fresh': False, 'clock': clock, 'equal_to': 0})
-        elif k == 'minus' and direction == 'fwd' and not params['balance'] and n >= 2:
+        elif k in ('minus', 'same', 'fresh') and direction == 'fwd' and not params['balance'] and n >= 2 and clock['kind'] == 'frozen':
             ops.append({'op': 'calc_minus', 'sched': 'A', 'clock': clock, 'remove': ro.choice(names), 'ref': 0})
+    if metamorphic and clock['kind'] == 'frozen' and not any(o['op'] == 'calc_minus' for o in ops):
+        # balancing off: a task's dates must not change when an unrelated task is removed; prefer removing a
+        # task that shares a resource with another one
+        by_res = {}
+        for t in leaves:
+            by_res.setdefault(t['kw'].get('resource'), []).append(t['name'])
+        shared = [x for v in by_res.values() if len(v) > 1 for x in v]
+        ops.append({'op': 'calc_minus', 'sched': 'A', 'clock': clock, 'remove': ro.choice(shared or names), 'ref': 0})
     sc['ops'] = ops
     return sc
 
